@@ -69,10 +69,13 @@ type Model struct {
 	DB  [16]map[string]*Obj
 	Ver [16]map[string]uint64 // modification counters (for WATCH)
 	ver uint64
+	// Dumps: values by the DUMP payload the system under test produced for them (the payload format is not modelled:
+	// the driver registers what DUMP returned, RESTORE looks it up). Shared between clones, entries are never changed.
+	Dumps map[string]*Obj
 }
 
 func New() *Model {
-	m := &Model{}
+	m := &Model{Dumps: map[string]*Obj{}}
 	for i := range m.DB {
 		m.DB[i] = map[string]*Obj{}
 		m.Ver[i] = map[string]uint64{}
@@ -81,7 +84,7 @@ func New() *Model {
 }
 
 func (m *Model) Clone() *Model {
-	n := &Model{ver: m.ver}
+	n := &Model{ver: m.ver, Dumps: m.Dumps}
 	for i := range m.DB {
 		n.DB[i] = make(map[string]*Obj, len(m.DB[i]))
 		for k, o := range m.DB[i] {
@@ -144,6 +147,20 @@ type Exp struct {
 	Pred     func(got resp.Value) string
 	Note     string
 	subExps  []Exp
+	// DumpOf: the reply is the DUMP payload of this value (snapshot taken when the command ran)
+	DumpOf *Obj
+}
+
+// RegisterDumps records the payloads the system under test returned for DUMP commands (also inside an EXEC reply).
+func (m *Model) RegisterDumps(e Exp, got resp.Value) {
+	if e.DumpOf != nil && (got.Kind == '$' || got.Kind == '=') && !got.Null {
+		m.Dumps[string(got.Str)] = e.DumpOf
+	}
+	if len(e.subExps) > 0 && got.Kind == '*' && len(got.Elems) == len(e.subExps) {
+		for i := range e.subExps {
+			m.RegisterDumps(e.subExps[i], got.Elems[i])
+		}
+	}
 }
 
 // SubExps returns the per-command expectations of an EXEC reply.
@@ -399,6 +416,10 @@ func (m *Model) touch(db int, key string) {
 }
 
 func (c *Ctx) touch(key string) { c.M.touch(c.S.DB, key) }
+
+// Touch records a modification of the key that the model did not perform itself (the caller adopted the state of the
+// system under test): sessions watching the key must see it as changed.
+func (m *Model) Touch(db int, key string) { m.touch(db, key) }
 
 func (c *Ctx) set(key string, o *Obj) {
 	c.db()[key] = o
